@@ -195,7 +195,8 @@ def jobs(tier, seed=0):
     for (pd, qd, wid) in ((4, 0, 8),) if quick else ((4, 0, 8), (2, 0, 64), (7, 0, 8)):
         B(lambda pd=pd, qd=qd, wid=wid:
           L.packetfifo_inst("defect-region/PacketFIFO(%d,%d,buffered)/%db" % (pd, qd, wid), pd, qd, buffered=True,
-                            dwid=wid, pwid=wid, alphabet=False, overlong_from=OV), with_monitor=False)
+                            dwid=wid, pwid=wid, alphabet=False, overlong_from=150), with_monitor=False,
+          cycles=200, runs=12 if quick else 120)      # the defect wedges the FIFO: many short runs from reset
     # ---- Arbiter / Dispatcher (payload = data | first << dwid) -----------------------------------------------
     A(lambda: L.arbiter_inst("Arbiter(2)", 2))
     A(lambda: L.arbiter_inst("Arbiter(3)", 3, payload_values=(0, 3)))
